@@ -91,7 +91,14 @@ func ReadPrivateKeyFromHex(Dhex string) (*sm2.PrivateKey,error) {
 
 
 func WritePrivateKeyToHex(key *sm2.PrivateKey) string {
-	return key.D.Text(16)
+	// fixed-width big-endian encoding: big.Int.Text(16) drops leading zero
+	// digits and may produce an odd number of them, which
+	// ReadPrivateKeyFromHex (hex.DecodeString) cannot read back
+	d := key.D.Bytes()
+	if n := len(d); n < 32 {
+		d = append(zeroByteSlice()[:32-n], d...)
+	}
+	return hex.EncodeToString(d)
 }
 
 func ReadPublicKeyFromHex(Qhex string) (*sm2.PublicKey, error) {
